@@ -809,6 +809,9 @@ def names_table(ctx):
     pool = set(NAMES + BADNAMES + UNIVERSE)
     for a, b in itertools.product("AZaz09_ \n.$É", repeat=2):
         pool |= {a, a + b, "A" + a + b}
+    # every public name of the semantic_pointer module is a candidate for an (unwanted) special name
+    import nengo_spa.semantic_pointer as SPM
+    pool |= {n for n in dir(SPM) if n[:1].isupper()} | {"NegativeIdentity", "One", "Unit", "Null"}
     for key in sorted(pool):
         ok = bool(V.valid_sp_regex.match(key)) and not keyword.iskeyword(key) and key not in V.reserved_sp_names
         impl = ("1" if ok else "0") + ("1" if key in V.special_sps else "0")
@@ -816,13 +819,24 @@ def names_table(ctx):
         # property oracle, independent of the library's regex: the documented rule ("valid Python 2 identifiers
         # beginning with a capital letter" = ASCII letters, digits, underscore) against what add() really does
         doc_ok = (len(key) > 0 and all(ord(c) < 128 and (c.isalnum() or c == "_") for c in key)
-                  and "A" <= key[0] <= "Z" and not keyword.iskeyword(key) and key not in V.reserved_sp_names)
+                  and "A" <= key[0] <= "Z" and not keyword.iskeyword(key)
+                  and key not in ("AbsorbingElement", "Identity", "Zero", "None", "True", "False"))
         vv = spa.Vocabulary(4, pointer_gen=np.random.RandomState(1))
         try:
             vv.add(key, np.array([1.0, 0, 0, 0]))
             accepted = True
         except Exception:  # noqa: any refusal
             accepted = False
+        # membership of an EMPTY vocabulary: exactly the three documented always-present names
+        empty = spa.Vocabulary(4, pointer_gen=np.random.RandomState(1))
+        try:
+            member = key in empty
+        except Exception as e:  # noqa
+            member = f"{type(e).__name__}"
+        if member != (key in ("Identity", "Zero", "AbsorbingElement")):
+            ctx.fail({"name": key, "class": "special names"}, f"{key!r} in Vocabulary(4) -> {member}",
+                     "True exactly for the three always-present names Identity, Zero, AbsorbingElement",
+                     where="special-names")
         if accepted != doc_ok or (accepted and list(vv.keys()) != [key]) or (not accepted and len(vv) != 0):
             ctx.fail({"name": key, "class": "name rule"}, f"add({key!r}) accepted={accepted}, keys={list(vv.keys())}",
                      f"accepted={doc_ok} (documented rule: ASCII identifier beginning with a capital letter, not "
